@@ -64,16 +64,6 @@ theorem fold_textEq {a b : List Tok} (h : TextEq a b) : ∀ (so : HtmlSt × Byte
     rw [stepTok_text tk ev _ t12 h3, stepTok_text tk ev _ t1 h1, stepTok_text tk ev _ t2 h2, h4]
     exact (push_push _ _ _ _).symm
 
-/-- merge adjacent text tokens (what the driver compares) -/
-def normText : List Tok → List Tok
-  | [] => []
-  | t :: ts =>
-    match normText ts with
-    | [] => [t]
-    | t' :: r =>
-      if t.kind = .text ∧ t'.kind = .text then { kind := .text, raw := t.raw ++ t'.raw, name := [] } :: r
-      else t :: t' :: r
-
 theorem textEq_normText : ∀ (ts : List Tok), TextEq ts (normText ts)
   | [] => .refl _
   | t :: ts => by
